@@ -219,6 +219,44 @@ def attribute_states(run, r, thys, cap):
     return dict(states=n_states, suggestions_applied=n_sug, theories=thys)
 
 
+def clash_states(run, r):
+    """States in which a bound variable of the goal carries the name of a variable that is free in the hypotheses (as
+    induction / cases leave them): every suggestion must still apply or ask for names."""
+    from kernel.type import TVar, TFun, BoolType
+    texts = ["Q x --> (!x::'a. R x)", "Q x --> (!x::'a. !y::'a. S x y)", "Q x --> Q y --> (!y::'a. !x::'a. S x y)", "Q x --> (?x::'a. R x)",
+             "Q x --> R x --> (!x::'a. Q x --> R x)", "S x y --> (!x::'a. R x) & (!y::'a. Q y)", "Q x --> (!x::'a. R x) --> R x",
+             "(!x::'a. Q x) --> (!x::'a. R x) --> (!x::'a. Q x & R x)", "Q x --> (!y::'a. R y --> (!x::'a. S x y))"]
+    n_states = n_sug = 0
+    for text in texts:
+        try:
+            A_ = TVar('a')
+            context.set_context('logic', vars={'x': A_, 'y': A_, 'Q': TFun(A_, BoolType), 'R': TFun(A_, BoolType), 'S': TFun(A_, A_, BoolType)})
+            state = server.parse_init_state(parser.parse_term(text))
+            copy.copy(state).check_proof()
+        except RecursionError:
+            raise
+        except Exception as e:
+            run.stat('clash_state_exc:' + type(e).__name__)
+            continue
+        n_sug += explore_state(run, state, 'generated[binder named like a free variable]', 'goal %s' % text, r, 20)
+        n_states += 1
+        # one level further: after introducing the outer assumptions / variables with fresh names
+        for names in ('u', 'u, v'):
+            cp = copy.copy(state)
+            gaps = [it.id for it in cp.prf.items if it.rule == 'sorry']
+            if not gaps:
+                continue
+            try:
+                method.apply_method(cp, {'method_name': 'introduction', 'goal_id': str(gaps[0]), 'names': names})
+            except RecursionError:
+                raise
+            except Exception:
+                continue
+            n_sug += explore_state(run, cp, 'generated[binder named like a free variable]', 'goal %s after introduction %s' % (text, names), r, 20)
+            n_states += 1
+    return dict(states=n_states, suggestions_applied=n_sug)
+
+
 def Const_false():
     from kernel.term import false
     return false
@@ -261,6 +299,7 @@ def run_check(tier, seed):
             n_sug += explore_state(run, state, name, 'after step %d' % k, r, 12)
             n_states += 1
     run.cov['search'] = dict(states=n_states, suggestions_applied=n_sug, theories=thys)
+    run.cov['search_binder_clash_states'] = clash_states(run, r)
     run.cov['search_attribute_states'] = attribute_states(run, r, ['logic', 'nat'] if tier == 'quick' else ['logic', 'set', 'function', 'nat', 'int', 'list', 'real'],
                                                           30 if tier == 'quick' else 400)
     if first:
